@@ -242,11 +242,11 @@ def stream_regexes(ctx, impl, drv):
 POOL = ["+L", "-L", "L", "L...", "...L", "…L", "L…", "-L...", "M...", "...M", "-M", "+-L", "...L...", "# x"]
 
 
-def layouts(max_lines, max_toks, pool):
+def layouts(max_lines, max_toks, pool, codes=("x", "")):
     """All sources of ≤ max_lines lines, each line = optional code + optional hint comment of
     ≤ max_toks tokens from the pool (an empty code with a comment = isolated hint)."""
     line_kinds = [""]  # blank line
-    for code in ("x", ""):
+    for code in codes:
         for k in range(0, max_toks + 1):
             for toks in itertools.product(pool, repeat=k):
                 if k == 0:
@@ -281,6 +281,8 @@ def stream_layouts(ctx, impl, drv, judge):
     """Bounded-exhaustive line layouts; every malformed one must be a ValueError (property)."""
     if ctx.tier == "quick":
         kinds = layouts(3, 1, POOL)  # all 1..3-line texts over 1-token comments
+        # code holding a character str.splitlines() takes for a line break (form feed, FS) and "\n" does not
+        kinds += [k for k in layouts(3, 1, POOL[:8], codes=("s = 'a\x0cb'", "t\x1cu")) if k not in kinds]
         srcs = ["\n".join(t) for k in (1, 2, 3) for t in itertools.product(kinds, repeat=k)]
         kinds2 = layouts(2, 2, POOL[:10])
         srcs += ["\n".join(t) for k in (1, 2) for t in itertools.product(kinds2, repeat=k)]
@@ -288,6 +290,7 @@ def stream_layouts(ctx, impl, drv, judge):
             srcs = srcs[:20000] + ctx.rng.sample(srcs[20000:], 40000)
     else:
         kinds = layouts(4, 1, POOL)
+        kinds += [k for k in layouts(4, 1, POOL[:8], codes=("s = 'a\x0cb'", "t\x1cu")) if k not in kinds]
         srcs = ["\n".join(t) for k in (1, 2, 3, 4) for t in itertools.product(kinds, repeat=k)]
         kinds2 = layouts(3, 2, POOL[:10])
         more = ["\n".join(t) for k in (1, 2, 3) for t in itertools.product(kinds2, repeat=k)]
@@ -311,7 +314,8 @@ def stream_layouts(ctx, impl, drv, judge):
 
 LABELS = ["foo", "bar:baz", "a/b", "x.y", "l_1", "if", "loop:for", "meta/topic/fun", "A", "0",
           "a...b", "x…y", "f(x)", "a+b", "a-b", "_", "paroxython:x"]
-CODE = ["x = 1", "y = x + 1", "print(x)", "for i in range(3):", "    pass", "if x:", "    y = 2", "", "def f(a):",
+LINEBREAK_LIKE = ["s = 'a\x0cb'", "t = \"x\x0by\"", "u = 'p\x1cq'", "v = 'm\x1dn\x1eo'", "w = 'c\rd'", "k = '\x0c'  # ff"]
+CODE = LINEBREAK_LIKE[:5] + ["x = 1", "y = x + 1", "print(x)", "for i in range(3):", "    pass", "if x:", "    y = 2", "", "def f(a):",
         "    return a", "z = [1, 2]", "while x: x -= 1", "s = '# not a hint'", "t = \"...\""]
 
 
@@ -577,6 +581,39 @@ def stream_blank_ends(ctx, impl, drv, judge):
     ctx.dist("blank-ends:property-failures", hits)
 
 
+def stream_unicode_linebreaks(ctx, impl, drv, judge):
+    """Characters outside the model alphabet that str.splitlines() takes for line breaks (NEL, LS, PS): inside a
+    code line they must change nothing to the schedule — get_program must answer as for the same text with the
+    character replaced by a letter (the lines of a program are those `"\\n"` separates)."""
+    n = 150 if ctx.tier == "quick" else 2000
+    for _ in range(n):
+        rng = ctx.rng
+        ch = rng.choice(["\x85", "\u2028", "\u2029", "\x0c", "\x1c", "\x1e", "\x0b"])
+        base = [rng.choice(CODE[5:]) for _ in range(rng.randint(2, 5))]
+        k = rng.randrange(len(base))
+        base[k] = "q = 'a" + ch + "b'" if rng.random() < 0.7 else base[k] + "  # c" + ch + "d"
+        layout = gen_decorated(rng, base, labels=LABELS[:8])
+        spec = drv.call("c12.spec_decorate", lines=layout)
+        src = spec["src"]
+        if ch not in src:
+            continue
+        got = impl.get_program(src)
+        ref = impl.get_program(src.replace(ch, "X"))
+        if "source" in ref:
+            ref = dict(ref, source=None)
+        got_cmp = dict(got, source=None) if "source" in got else got
+        ctx.count("linebreak-like-characters", src, nontrivial=MARK in src)
+        if got_cmp != ref:
+            add_violation(ctx, {
+                "what": "a character that str.splitlines() takes for a line break, inside a code line, changes the hint "
+                        "schedule (hints must be numbered on the lines separated by \\n)",
+                "signature": None,
+                "replay": {"kind": "linebreak-like", "layout": layout, "src": src, "impl": got,
+                           "spec": impl.get_program(src.replace(ch, "X")),
+                           "how": "get_program(src) vs get_program(src with the character replaced by 'X')"},
+            }, per_sig=2)
+
+
 def stream_marker_spelling(ctx, impl, drv, judge):
     """The manual tolerates `#  Paroxython :` (repaired finding 16)."""
     cases = ["x = 1 # Paroxython : foo", "x = 1 #paroxython: foo", "x = 1 #  PAROXYTHON  :   foo", "x = 1 #paroxython:foo"]
@@ -646,6 +683,7 @@ def sched_list(d):
 
 
 DUPLICATES = [
+    ["s = 'a\x0cb'", "t = \"x\x1cy\" + s + s", "u = t + t + s", "print(u, u)"],
     ["a = 1", "b = 2", "c = 3", "y = a + b + c", "z = a * b * c + a * b", "print(y, z, y)"],
     ["def f(a, b, c):", "    return a + b + c + a", "x = f(1, 2, 3) + f(4, 5, 6) + 1", "print(x, x)"],
     ["s = [1, 2, 3]", "t = s[0] + s[1] + s[2]", "for i in s:", "    t = t + i + i", "print(t)"],
@@ -676,8 +714,8 @@ def stream_end_to_end(ctx, impl, drv, judge, real_programs):
         tries += 1
         rng = ctx.rng
         r0 = rng.random()
-        if tries <= 4 or r0 < 0.2:  # programs with several computed occurrences of one label on one line range
-            base = list(DUPLICATES[(tries - 1) % len(DUPLICATES)] if tries <= 4 else rng.choice(DUPLICATES))
+        if tries <= 5 or r0 < 0.2:  # programs with several computed occurrences of one label on one line range
+            base = list(DUPLICATES[(tries - 1) % len(DUPLICATES)] if tries <= 5 else rng.choice(DUPLICATES))
         elif small and r0 < 0.8:
             base = list(rng.choice(small))
         else:
@@ -696,6 +734,10 @@ def stream_end_to_end(ctx, impl, drv, judge, real_programs):
             continue
         seeded0 = rec.seeded
         captures0 = rec.captures
+        computed0 = list(rec.computed)
+        if seeded0 is None:  # the parser answered without going through its stages (e.g. a memo): nothing recorded
+            ctx.dist("end-to-end:undecorated-run-without-stages")
+            continue
         # decorations aimed at computed labels
         clean = [(nm, s, e) for nm, spans in labels0 for (s, e, _p) in spans
                  if nm and (nm[0].isalnum() or nm[0] == "_") and not any(c.isspace() for c in nm)
@@ -712,7 +754,7 @@ def stream_end_to_end(ctx, impl, drv, judge, real_programs):
         dups = [k for k, v in mult.items() if v >= 2 and base[k[1] - 1].strip() and base[k[2] - 1].strip()]
         dups_sql = [k for k in dups if k[0] not in regex_names]
         ndup = 0
-        if dups and (tries <= 4 or rng.random() < 0.5):
+        if dups and (tries <= 5 or rng.random() < 0.5):
             for key in ([rng.choice(dups)] + ([rng.choice(dups_sql)] if dups_sql and rng.random() < 0.7 else [])):
                 nm, s_, e_ = key
                 if any(h["label"] == nm for l in lines for h in l["hints"]):
@@ -792,6 +834,35 @@ def stream_end_to_end(ctx, impl, drv, judge, real_programs):
         done += 1
         hinted = {h["label"] for l in lines for h in l.get("hints", [])} | {l["isolated"] for l in lines if "isolated" in l}
         ctx.count("end-to-end", src, nontrivial=True)
+        if rec.seeded is None:
+            # The parser returned labels WITHOUT going through its stages on this hinted program (nothing was asked
+            # to the regex engine nor to SQLite). Judge the answer with the engine answers of the undecorated run of
+            # the same stored source: for the hinted names that no SQL stage produces, the final counts must be
+            # (computed - scheduled deletions) + additions.
+            ctx.dist("end-to-end:decorated-run-without-stages")
+            sc0 = drv.call("c12.spec_counts", deletion=deletion, addition=addition, computed=computed0)
+            regex_only = {x[0] for x in seeded0} | hinted
+            sql_made = {nm for nm, spans in labels0} - {x[0] for x in seeded0}
+            got = {}
+            for nm, spans in labels:
+                for (s_, e_, _p) in spans:
+                    got[(nm, s_, e_)] = got.get((nm, s_, e_), 0) + 1
+            wrong = [[nm, s_, e_, got.get((nm, s_, e_), 0), k] for nm, s_, e_, k, _l in sc0["rows"]
+                     if nm in hinted and nm in regex_only and nm not in sql_made and got.get((nm, s_, e_), 0) != k]
+            if wrong:
+                add_violation(ctx, {
+                    "what": "the labels of a hinted program are not (computed - scheduled deletions) + additions: "
+                            "the hints are ignored",
+                    "signature": None,
+                    "replay": {"kind": "hints-ignored", "layout": lines, "src": src,
+                               "impl": [w[:4] for w in wrong[:6]], "spec": [w[:3] + [w[4]] for w in wrong[:6]],
+                               "deletion": deletion, "addition": addition,
+                               "how": "ProgramParser()(get_program(src)) after parsing the same program without hints "
+                                      "with the same parser; rows = [name, start, end, count]"},
+                })
+            else:
+                ctx.broken.append("corr:end-to-end-no-stages")
+            continue
         ctx.dist("end-to-end:deletions", sum(len(v) for _, v in deletion))
         # (1) model of the stages on the recorded answers
         m = drv.call("c12.glue", deletion=deletion, addition=addition, computed=rec.computed, derived=rec.derived)
@@ -902,6 +973,7 @@ def run(ctx):
                         ("decorated", lambda: stream_decorated(ctx, impl, drv, judge, real)),
                         ("blank-ends", lambda: stream_blank_ends(ctx, impl, drv, judge)),
                         ("marker", lambda: stream_marker_spelling(ctx, impl, drv, judge)),
+                        ("linebreak-like", lambda: stream_unicode_linebreaks(ctx, impl, drv, judge)),
                         ("end-to-end", lambda: stream_end_to_end(ctx, impl, drv, judge, real))]:
             t = time.time()
             f()
